@@ -186,8 +186,7 @@ pub struct Profile {
     pub no_pooled: bool,
     pub only_all_impacted: bool,
     pub max_width: usize,
-    /// family T with the 'weak' dominance rule (domination possible between equally good states, not preserved by
-    /// transitions): exposes finding H7; only the C10 campaign uses it
+    /// (kept for compatibility) the 'weak' dominance rule of family T exposed finding H7 (fixed by 0354425): all campaigns use it now
     pub weak_t_dominance: bool,
 }
 
@@ -220,8 +219,7 @@ pub fn random_spec(rng: &mut Rng, p: &Profile) -> CaseSpec {
         'K' => if p.reconvergent { KSZ_FEWWEIGHTS } else if p.small && rng.chance(1, 2) { KSZ_SMALL } else { *rng.pick(&[KSZ_TINY, KSZ_TINY, KSZ_FEWWEIGHTS]) },
         _ => if p.reconvergent { PSZ_SPARSE } else if p.small && rng.chance(1, 2) { PSZ_SMALL } else { *rng.pick(&[PSZ_TINY, PSZ_TINY, PSZ_SPARSE]) },
     };
-    let mut variant = random_variant(rng, p.with_dominance);
-    if fam == 'T' && variant.dom == DomKind::Weak && !p.weak_t_dominance { variant.dom = DomKind::Exact; }
+    let variant = random_variant(rng, p.with_dominance);
     let dd = if p.no_pooled { *rng.pick(&[DdKind::Lel, DdKind::Fc]) } else { *rng.pick(&DdKind::ALL) };
     let maxw = if p.max_width == 0 { 4 } else { p.max_width };
     let width = match rng.below(10) {
